@@ -111,6 +111,7 @@ class Exec(object):
         self.notes = []
         self.loop_sites = {}      # (file, line) -> {"kind":..., "max_iter": n, "bound": text}
         self.stats = {"paths": 0, "checks": 0, "exec_s": 0.0}
+        self.focus_loop = None    # (file, line): paths end when this loop exits (C17 bound search)
         self._uf = {}
         self._pow2_of = {}
         self._defs = {}
@@ -1306,6 +1307,7 @@ class Exec(object):
             except BreakEx as b:
                 if not _mine(b, e):
                     raise
+                _left_loop(self, line)
                 return b.value if b.value is not None else ()
             except ContinueEx as c:
                 if not _mine(c, e):
@@ -1322,6 +1324,7 @@ class Exec(object):
             v = self.eval(scrut, env)
             scope = {}
             if not self.bind(pat, v, scope, line):
+                _left_loop(self, line)
                 return ()
             if n > self.max_loop and self.ctx is not None and len(self.ctx.trace) > trace0:
                 raise Unbounded(self.file, line, "`while let` still running after %d iterations with a data-dependent condition" % n)
@@ -1378,12 +1381,14 @@ class Exec(object):
             if n > 200000:
                 raise Unbounded(self.file, line, "`while` did not terminate within 200000 iterations")
             if not self.truth(c, line):
+                _left_loop(self, line)
                 return ()
             try:
                 self.exec_block(blk, env)
             except BreakEx as b:
                 if not _mine(b, e):
                     raise
+                _left_loop(self, line)
                 return ()
             except ContinueEx as c2:
                 if not _mine(c2, e):
@@ -1800,6 +1805,18 @@ class Exec(object):
 
     def ev_mcall(self, e, env):
         _, recv, name, argexprs, line = e
+        if name == "contains" and recv[0] == "range" and len(argexprs) == 1:
+            # (lo..hi).contains(&x) / (lo..=hi).contains(&x): PartialOrd comparisons, no iteration
+            self.hint = None
+            lo = self.eval(recv[1], env) if recv[1] is not None else None
+            hi = self.eval(recv[2], env) if recv[2] is not None else None
+            x = self.eval(argexprs[0], env)
+            c = True
+            if lo is not None:
+                c = b_and(c, self.compare(">=", x, lo, line))
+            if hi is not None:
+                c = b_and(c, self.compare("<=" if recv[3] else "<", x, hi, line))
+            return c
         hint = self.hint
         if name in ("try_into", "into", "collect", "unwrap", "expect", "map_err", "clone", "to_owned"):
             self.hint = hint
@@ -2278,8 +2295,10 @@ class Exec(object):
                 self.panic(line, "mid > len")
             return (self.view(v, 0, c), self.view(v, c, len(v)))
         if name in ("chunks_exact_mut", "chunks_mut"):
-            c = self.concretize(args[0], max(len(v), 1), line)
-            if not c:
+            c = self.concretize(args[0], len(v) + 1, line)
+            if c is None:
+                c = len(v) + 1
+            if c == 0:
                 self.panic(line, "chunk size must be non-zero")
             end = len(v) // c * c if name == "chunks_exact_mut" else len(v)
             return RList([self.view(v, i, min(i + c, len(v))) for i in range(0, end, c)])
@@ -2379,8 +2398,10 @@ class Exec(object):
                 self.panic(line, "mid > len")
             return (RList(v[:c]), RList(v[c:]))
         if name in ("windows", "chunks", "chunks_exact"):
-            c = self.concretize(args[0], max(len(v), 1), line)
-            if not c:
+            c = self.concretize(args[0], len(v) + 1, line)
+            if c is None:
+                c = len(v) + 1          # any size above the length behaves alike
+            if c == 0:
                 self.panic(line, "%s size must be non-zero" % name)
             if name == "windows":
                 return RList([RList(v[i:i + c]) for i in range(0, len(v) - c + 1)])
@@ -2429,6 +2450,11 @@ class Exec(object):
         if name == "try_into":
             return ResultV("Ok", v)
         self.unsupported(line, "unknown slice / iterator method .%s()" % name)
+
+
+def _left_loop(ex, line):
+    if ex.focus_loop is not None and ex.focus_loop == (ex.file, line):
+        raise Pruned()
 
 
 class ContinueEx(Exception):
